@@ -200,7 +200,10 @@ theorem ok_call_all_effects_ok (env : Env) (op : Op) (s : State)
 failing sub-operations), for every description and both failed-stop behaviours:
 `is_loop_running()` is true iff exactly one receive loop is alive, there is never more than
 one, and the number of live loops is the one determined by the effect trace alone (loop
-starts that succeeded minus loop stops that ended a loop). -/
+starts that succeeded minus loop stops that ended a loop).  This is a statement about the
+camera over a stream handle whose flag and loops change together in `start_streaming_loop` /
+`stop_streaming_loop` (the model's handle); that the real `u3v::StreamHandle` flag tracks the
+loop THREAD is not shown here (listed under `partial`). -/
 theorem flag_tracks_loop (env : Env) (ops : List Op) :
     let s := runOps env ops State.init
     (s.dev.loopFlag = true ↔ s.dev.loops = 1) ∧ s.dev.loops ≤ 1 ∧
@@ -223,25 +226,57 @@ theorem never_two_loops (env : Env) (ops : List Op) :
 
 /-! ## Close leaves a clean device when nothing failed -/
 
-/-- **consistent_step** (per state).  From ANY state whose device state is consistent (and
-whose loaded description, if any, is complete), with the complete description on the device:
-every call either has a failing effect, or leaves the device state consistent again —
-whatever the call returns (Ok, a refusal such as InStreaming / GenApiContextMissing, or the
-`cap = 0` panic). -/
+/-- **consistent_unless_protocol_step_fails** (per state).  From ANY state whose device state is
+consistent (and whose loaded description, if any, is complete), with the complete description
+on the device: every call leaves the device state consistent again unless a step of the
+start/stop protocol itself fails in it (`Harmless`: the effect succeeded, or it is an
+open/close of a handle, a description retrieval or a parameter read — e.g. `load_context`
+refused with NotOpened on a closed handle).  Whatever the call returns. -/
+theorem consistent_unless_protocol_step_fails (env : Env) (hx : env.xml = Xml.full) (op : Op)
+    (s : State) (hs : Good s.dev) :
+    ∃ seg, (step env op s).2.trace = s.trace ++ seg ∧
+      (AllHarmless seg → Good (step env op s).2.dev) :=
+  triple_snd (good_call (H := Harmless) (t0 := s.trace) env hx hprot_harmless op)
+    ⟨[], by simp, fun _ => hs⟩
+
+/-- **consistent_step**: the special case "no effect of the call failed". -/
 theorem consistent_step (env : Env) (hx : env.xml = Xml.full) (op : Op) (s : State)
     (hs : Good s.dev) :
-    ∃ seg, (step env op s).2.trace = s.trace ++ seg ∧ (AllOk seg → Good (step env op s).2.dev) :=
-  triple_snd (good_call (t0 := s.trace) env hx op) ⟨[], by simp, fun _ => hs⟩
+    ∃ seg, (step env op s).2.trace = s.trace ++ seg ∧ (AllOk seg → Good (step env op s).2.dev) := by
+  obtain ⟨seg, ht, h⟩ := consistent_unless_protocol_step_fails env hx op s hs
+  exact ⟨seg, ht, fun hall => h (fun e he => Or.inl (hall e he))⟩
+
+/-- **open / load_context / params access never disturb consistency**, whichever of their
+sub-operations fail (injected fault or NotOpened) and whatever they return. -/
+theorem consistent_kept_by_open_load_param (env : Env) (hx : env.xml = Xml.full) (op : Op)
+    (hop : op = .open ∨ op = .load ∨ op = .param) (s : State) (hs : Good s.dev) :
+    Good (step env op s).2.dev := by
+  have hP : OkP (fun _ => True) s.trace Good s := ⟨[], by simp, fun _ => hs⟩
+  have key : OkP (fun _ => True) s.trace Good (step env op s).2 := by
+    rcases hop with rfl | rfl | rfl
+    · exact triple_snd (good_openCam env) hP
+    · exact triple_snd (good_loadContext env hx) hP
+    · exact triple_snd (good_paramAccess env) hP
+  obtain ⟨seg, _, h⟩ := key
+  exact h (fun _ _ => trivial)
+
+/-- A `stop_streaming` call while no loop runs returns `Ok` and touches nothing (refused
+`start_streaming` calls: `no_second_loop_streaming`, `no_second_loop_no_context`,
+`start_zero_cap_panics_without_effect`). -/
+theorem stop_idle_changes_nothing (env : Env) (s : State) (h : s.dev.loopFlag = false) :
+    step env .stop s = (.ok (), s) := by
+  simp [step, call, stopStreaming, getDev_bind, h, pure_apply]
 
 /-- **close_clean** (per state).  From ANY state with a consistent device state, whatever
 happened before: if no device/stream operation fails during `close` itself, `close` returns
-`Ok`, and afterwards the loop is stopped, no loop is alive, TLParamsLocked is 0, the stream is
-disabled, the device is not acquiring, both handles are closed and the register cache is
-empty. -/
+`Ok`, and afterwards the loop is stopped, no loop is alive, the payload channel is gone,
+TLParamsLocked is 0, the stream is disabled, the device is not acquiring, both handles are
+closed and the register cache is empty. -/
 theorem close_clean_from_consistent (env : Env) (s : State) (hs : Good s.dev) :
     ∃ seg, (step env .close s).2.trace = s.trace ++ seg ∧
       (AllOk seg → (step env .close s).1 = .ok () ∧ Clean (step env .close s).2.dev) := by
-  obtain ⟨h1, h2, h3⟩ := good_closeCam (t0 := s.trace) env s ⟨[], by simp, fun _ => hs⟩
+  obtain ⟨h1, h2, h3⟩ := good_closeCam (H := fun e => e.out = .ok) (t0 := s.trace) env hprot_ok
+    (GE := fun _ => False) (Or.inl (fun _ _ ho h => ho h)) s ⟨[], by simp, fun _ => hs⟩
   rcases hr : call env .close s with ⟨res, s'⟩
   simp only [step, hr]
   cases res with
@@ -255,46 +290,77 @@ theorem close_clean_from_consistent (env : Env) (s : State) (hs : Good s.dev) :
     obtain ⟨seg, ht, hB⟩ := h3 s' hr
     exact ⟨seg, ht, fun hall => (hB hall).elim⟩
 
-/-- **consistent_without_failure**.  With the complete description on the device, after every
-call sequence in which no device/stream operation failed (every effect in the trace is `ok`;
-calls may still have been refused with InStreaming / GenApiContextMissing, or panicked on
-`cap = 0`): streaming-enabled, TLParamsLocked and acquiring all agree with the loop flag. -/
+/-- **consistent_history**.  With the complete description on the device, after every call
+sequence in which no PROTOCOL STEP failed (refusals such as NotOpened on a closed handle, failed
+opens/closes/description reads/parameter reads, InStreaming / GenApiContextMissing, the
+`cap = 0` panic are all allowed): the device state is consistent. -/
+theorem consistent_history (env : Env) (hx : env.xml = Xml.full) (ops : List Op) :
+    let s := runOps env ops State.init
+    AllHarmless s.trace → Good s.dev := by
+  intro s hall
+  obtain ⟨seg, ht, hB⟩ := good_runOps (H := Harmless) env hx hprot_harmless ops State.init good_init
+  rw [List.nil_append] at ht
+  exact hB (ht ▸ hall)
+
+/-- **consistent_without_failure**: the special case "nothing failed at all". -/
 theorem consistent_without_failure (env : Env) (hx : env.xml = Xml.full) (ops : List Op) :
     let s := runOps env ops State.init
     AllOk s.trace → Consistent s.dev := by
   intro s hall
-  obtain ⟨seg, ht, hB⟩ := good_runOps env hx ops State.init good_init
-  rw [List.nil_append] at ht
-  exact (hB (ht ▸ hall)).1
+  exact (consistent_history env hx ops (fun e he => Or.inl (hall e he))).1
 
 /-- **close_clean**.  With the complete description on the device, for every call sequence
-`ops` followed by `close`, under every fault plan: if no device/stream operation failed in the
-whole history (including the close itself), then `close` returns `Ok`, and afterwards the loop
-is stopped, no loop is alive, TLParamsLocked is 0, the stream is disabled, the device is not
-acquiring, both handles are closed and the register cache is empty. -/
+`ops` followed by `close`, under every fault plan: if no protocol step failed in the history
+(see `consistent_history`; e.g. `[load (NotOpened), open, load, start 1]` qualifies) and nothing
+fails during the close itself, then `close` returns `Ok` and leaves a clean device. -/
 theorem close_clean (env : Env) (hx : env.xml = Xml.full) (ops : List Op) :
     let s := runOps env ops State.init
-    let r := step env .close s
-    AllOk r.2.trace → r.1 = .ok () ∧ Clean r.2.dev := by
-  intro s r hall
-  have hs : OkP [] Good s := good_runOps env hx ops State.init good_init
-  obtain ⟨h1, h2, h3⟩ := good_closeCam env s hs
-  rcases hr : call env .close s with ⟨res, s'⟩
-  have hr' : r = (res, s') := hr
-  rw [hr'] at hall ⊢
+    AllHarmless s.trace →
+      ∃ seg, (step env .close s).2.trace = s.trace ++ seg ∧
+        (AllOk seg → (step env .close s).1 = .ok () ∧ Clean (step env .close s).2.dev) := by
+  intro s hall
+  exact close_clean_from_consistent env s (consistent_history env hx ops hall)
+
+/-! ## What a failing start / stop leaves behind -/
+
+/-- **call_effects_determine_visible_state** (per state).  For every call, state and fault plan:
+the device-visible state after the call is the state before it with the call's successful
+effects applied in order (failed effects change nothing — a fact about the recording fake,
+see the assumptions).  With `start_order` / `stop_order` this says exactly what a failing
+start or stop leaves: e.g. a start whose AcquisitionStart fails leaves streaming enabled and
+TLParamsLocked = 1; a stop whose TLParamsLocked := 0 fails leaves the device locked and
+enabled but no longer acquiring. -/
+theorem call_effects_determine_visible_state (env : Env) (op : Op) (s : State) :
+    ∃ seg, (step env op s).2.trace = s.trace ++ seg ∧
+      (step env op s).2.dev.visible = seg.foldl applyEffect s.dev.visible :=
+  triple_snd (vis_call (v0 := s.dev.visible) (t0 := s.trace) env op) ⟨[], by simp, rfl⟩
+
+/-- **failed_start_leaves**.  A `start_streaming` call that does not return `Ok` (error or
+panic) started no loop: flag, live loops, payload channel, context and handles are as before. -/
+theorem failed_start_leaves (env : Env) (cap : Nat) (s : State)
+    (h : (step env (.start cap) s).1 ≠ .ok ()) :
+    NoLoopChange s.dev (step env (.start cap) s).2.dev := by
+  obtain ⟨_, h2, h3⟩ := exact_startStreaming env cap s.dev s rfl
+  rcases hr : call env (.start cap) s with ⟨res, s'⟩
+  simp only [step, hr] at h ⊢
   cases res with
-  | ok a =>
-    obtain ⟨seg, ht, hB⟩ := h1 a s' hr
-    rw [List.nil_append] at ht
-    exact ⟨rfl, (hB (ht ▸ hall)).2⟩
-  | err e =>
-    obtain ⟨seg, ht, hB⟩ := h2 e s' hr
-    rw [List.nil_append] at ht
-    exact (hB (ht ▸ hall)).elim
-  | panic =>
-    obtain ⟨seg, ht, hB⟩ := h3 s' hr
-    rw [List.nil_append] at ht
-    exact (hB (ht ▸ hall)).elim
+  | ok a => exact absurd rfl h
+  | err e => exact h2 e s' hr
+  | panic => exact h3 s' hr
+
+/-- **failed_stop_leaves**.  A `stop_streaming` call that does not return `Ok` either changed
+nothing of the loop state (the loop stop itself failed and the loop survived), or the loop is
+gone (and with it the payload channel) while later protocol steps were not performed — the
+device-visible remainder is given by `call_effects_determine_visible_state`. -/
+theorem failed_stop_leaves (env : Env) (s : State) (h : (step env .stop s).1 ≠ .ok ()) :
+    LoopGoneOrSame s.dev (step env .stop s).2.dev := by
+  obtain ⟨_, h2, h3⟩ := exact_stopStreaming env s.dev s rfl
+  rcases hr : call env .stop s with ⟨res, s'⟩
+  simp only [step, hr] at h ⊢
+  cases res with
+  | ok a => exact absurd rfl h
+  | err e => exact h2 e s' hr
+  | panic => exact h3 s' hr
 
 /-! ## The whole trace follows the acquisition protocol -/
 
@@ -330,13 +396,20 @@ theorem disable_only_after_stop_protocol (env : Env) (ops : List Op)
 /-! ## The device-visible state is determined by the effect trace -/
 
 /-- **device_state_is_trace_replay**.  After every call sequence under every fault plan, what
-the model says the device and the handles hold (control/stream handle open, streaming enabled,
-TLParamsLocked, acquiring) is exactly the replay of the effect trace: successful effects
-applied in order, failed effects changing nothing.  So every statement above about these state
-components (`Clean`, `Consistent`, …) is a statement about the device-visible effects. -/
+the MODEL says the device and the handles hold (control/stream handle open, streaming enabled,
+TLParamsLocked, acquiring) is the replay of the effect trace: successful effects applied in
+order, failed effects changing nothing.  "Failed effects change nothing" is a fact about the
+recording fake that stands for the device (an assumption, see props/C16.json): a write the
+device executed but whose acknowledge was lost would leave the real device ahead of this
+replay.  Under that assumption every statement about these state components (`Clean`,
+`Consistent`, …) is a statement about the device-visible effects. -/
 theorem device_state_is_trace_replay (env : Env) (ops : List Op) :
     (runOps env ops State.init).dev.visible = visibleOf (runOps env ops State.init).trace :=
-  vis_runOps env ops State.init rfl
+  by
+    obtain ⟨seg, ht, hv⟩ := vis_runOps (v0 := {}) (t0 := []) env ops State.init ⟨[], rfl, rfl⟩
+    rw [List.nil_append] at ht
+    rw [hv, ht]
+    rfl
 
 /-! ## Exact device state after a successful start / stop (every state, every fault plan) -/
 
@@ -347,6 +420,14 @@ theorem start_ok_state (env : Env) (cap : Nat) (s s' : State)
     (h : step env (.start cap) s = (.ok (), s')) :
     s'.dev = startedDev s.dev cap ∧ s.dev.loopFlag = false ∧ s.dev.ctxt ≠ none ∧ cap ≠ 0 :=
   (exact_startStreaming env cap s.dev s rfl).1 () s' h
+
+/-- **start_returns_the_loops_channel**.  After a `start_streaming(cap)` call that returns `Ok`,
+the receive loop holds the sender of the very channel whose receiver was returned to the caller,
+and that channel has payload capacity `cap` (give-back capacity `DEFAULT_BUFFER_CAP` = 5). -/
+theorem start_returns_the_loops_channel (env : Env) (cap : Nat) (s s' : State)
+    (h : step env (.start cap) s = (.ok (), s')) : s'.dev.chan = some (cap, 5) := by
+  rw [(start_ok_state env cap s s' h).1]
+  rfl
 
 /-- A `stop_streaming` call that returns `Ok` either found no loop running and changed
 nothing, or leaves: streaming disabled, TLParamsLocked = 0, not acquiring, one live loop less. -/
@@ -413,5 +494,24 @@ example : step envOk (.start 3) (runOps envOk [.open] State.init) =
   no_second_loop_no_context _ _ _ (by decide) (by decide)
 
 example : (step envOk (.start 0) (runOps envOk [.open, .load] State.init)).1 = .panic := by decide
+
+-- the auditor's sequence: the first load is refused with NotOpened (a harmless effect); the
+-- history still qualifies for consistent_history / close_clean, and close leaves a clean device
+example : (runOps envOk [.load, .open, .load, .start 1] State.init).trace.head? =
+    some ⟨.genapi, .notOpened⟩ := by decide
+
+example : AllHarmless (runOps envOk [.load, .open, .load, .start 1] State.init).trace := by
+  unfold AllHarmless Harmless; decide
+
+example : Clean (runOps envOk [.load, .open, .load, .start 1, .close] State.init).dev := by
+  unfold Clean; decide
+
+-- the payload channel of a successful start(3)
+example : (runOps envOk [.open, .load, .start 3] State.init).dev.chan = some (3, 5) := by decide
+
+-- failed_start_leaves / call_effects_determine_visible_state on the AcquisitionStart fault
+example : (runOps (envFault 5) [.open, .load, .start 3] State.init).dev.visible =
+    { ctrlOpen := true, strmOpen := true, enabled := true, lock := 1, acquiring := false } := by
+  decide
 
 end CamVerif.C16
